@@ -46,6 +46,11 @@ int main (void)
     else if (!strcmp (op, "and")) { sc_uint128_bitwise_and (&x, &y, &r); p128 (&r); }
     else if (!strcmp (op, "ori")) { sc_uint128_bitwise_or_inplace (&x, &y); p128 (&x); }
     else if (!strcmp (op, "andi")) { sc_uint128_bitwise_and_inplace (&x, &y); p128 (&x); }
+    /* "a == b is allowed": the same object for both arguments */
+    else if (!strcmp (op, "addia")) { sc_uint128_add_inplace (&x, &x); p128 (&x); }
+    else if (!strcmp (op, "subia")) { sc_uint128_sub_inplace (&x, &x); p128 (&x); }
+    else if (!strcmp (op, "oria")) { sc_uint128_bitwise_or_inplace (&x, &x); p128 (&x); }
+    else if (!strcmp (op, "andia")) { sc_uint128_bitwise_and_inplace (&x, &x); p128 (&x); }
     else if (!strcmp (op, "neg")) { sc_uint128_bitwise_neg (&x, &r); p128 (&r); }
     else if (!strcmp (op, "shr")) { sc_uint128_shift_right (&x, (int) a[2], &r); p128 (&r); }
     else if (!strcmp (op, "shl")) { sc_uint128_shift_left (&x, (int) a[2], &r); p128 (&r); }
